@@ -21,6 +21,11 @@ func addSubstProcs(r rng, p *sdl.Program) {
 			i.Prewired = true
 		}
 	}
+	for _, i := range p.Instances {
+		if len(i.InitLookups) != 0 && r.p(0.3) {
+			i.Tolerant = true
+		}
+	}
 	nProc := r.n(1, 2)
 	slot := 0
 	for i := 0; i < nProc; i++ {
